@@ -20,6 +20,13 @@ class C01(PropCheck):
     )
 
     def correspondence(self, run):
+        sec0 = run.section(
+            'fixed-regressions',
+            'corpus first: the documents of the repaired findings (known_findings.txt `fixed:` lines of C01 with a '
+            'corpus document) rendered again and checked by the Lean conservation checker - they must pass now; '
+            'non-trivial = at least 2 pages')
+        for name, line, meta in fixed_regression_cases():
+            sec0.add(line, 'ok', meta=meta, nontrivial=len(meta['pages']) >= 2, tags=[name])
         sec = run.section(
             'pm-documents',
             'random block/paragraph documents (depth <= 4, margins/paddings/borders/fixed heights/break-*/orphans/'
@@ -89,7 +96,7 @@ class C01(PropCheck):
             return pm_stage2.conservation(d['section'], doc, d['impl'], d['model'])
         if d['section'] == 'families':
             return f"{d['meta']['doc_id']}: " + (wide_trace.conserve_violation(d['meta'], d['model']) or d['model'])
-        if d['section'] == 'wide-traces':
+        if d['section'] in ('wide-traces', 'fixed-regressions'):
             return wide_trace.conserve_violation(d['meta'], d['model'])
         doc = pm_corr.doc_from_json(d['meta']['doc'])
         return pm_corr.conservation_violation(doc, d['impl'])
@@ -138,17 +145,15 @@ class C01(PropCheck):
         return found
 
     def finding_replays(self):
-        return {'fixed-height-forgets-overflow': fixed_height_drops,
+        return {**pm_stage2.finding_replays(),
+                'fixed-height-forgets-overflow': fixed_height_drops,
                 'out-of-flow-lost-at-document-end': float_lost_at_end,
                 'flex-grid-fragmentation-loses-content': grid_item_lost,
-                'float-fragment-duplicated': lambda: corpus_fails('float_fragment_duplicated'),
-                'column-span-loses-following-content': lambda: corpus_fails('column_span_loses'),
                 'footnote-in-columns-lost-or-duplicated': lambda: corpus_fails('footnote_in_columns'),
                 'table-in-columns-duplicates-rows': lambda: corpus_fails('table_in_columns_duplicates_rows'),
-                'stale-next-page-scatters-fragments': stale_next_page,
-                'absolute-placeholder-survives-abort': pm_oof_corr.finding_replays()['absolute-placeholder-survives-abort'],
-                'footnote-named-page-lost': pm_foot_corr.FINDING_REPLAYS['footnote-named-page-lost'],
-                'column-group-dropped-span-duplicated': lambda: pm_col_corr.replay_witness('colspan_group_dropped')}
+                'table-cell-restarts-after-empty-fragment': lambda: corpus_fails('table_cell_restarts'),
+                'float-in-columns-fragment-duplicated': lambda: corpus_fails('float_in_columns_duplicated'),
+                'stale-next-page-scatters-fragments': stale_next_page}
 
     def replay(self, data):
         inp = data.get('input', {})
@@ -195,6 +200,28 @@ def corpus_fails(name):
     docs.quiet()
     pages = widegen.page_words(docs.render(data['html']))
     return bool(wide_trace.conserve_violation({'groups': data['groups'], 'pages': pages}, 'ok'))
+
+
+# repaired findings: (fixed: id, corpus document) - run first in every check; a `fixed:` line suppresses nothing
+FIXED_REGRESSIONS = [('float-fragment-duplicated', 'float_fragment_duplicated'),
+                     ('column-span-loses-following-content', 'column_span_loses')]
+
+
+def fixed_regression_cases():
+    import json
+    from harness import widegen
+    from vlib import sx
+    from vlib.paths import CORPUS
+    docs.quiet()
+    for name, stem in FIXED_REGRESSIONS:
+        data = json.loads((CORPUS / 'C01' / f'{stem}.json').read_text())
+        try:
+            with docs.time_limit(20):
+                pages = widegen.page_words(docs.render(data['html']))
+        except Exception:  # noqa: BLE001 - an exception is C02's business
+            continue
+        line = sx.line('conserve', [[wide_trace.KIND[g['kind']], g['words']] for g in data['groups']], pages)
+        yield name, line, {'html': data['html'], 'groups': data['groups'], 'pages': pages, 'doc_id': name}
 
 
 def float_lost_at_end():
